@@ -11,8 +11,8 @@ import (
 type shape struct {
 	name       string
 	comparable bool
-	leafPaths  []leaf   // value leaves reachable without crossing a pointer, slice or map
-	inner      []inner  // nested struct/array sub-values (path + type)
+	leafPaths  []leaf  // value leaves reachable without crossing a pointer, slice or map
+	inner      []inner // nested struct/array sub-values (path + type)
 	depth      int
 	isArray    bool
 	arrayLen   int
